@@ -173,3 +173,17 @@ PROPS["C12"]["fuzz"] = [("FuzzC12String", 60), ("FuzzC12TransferParser", 60)]
 PROPS["C14"]["fuzz"] = [("FuzzC14Decode", 90)]
 for _p in ("C11", "C12", "C14"):
     PROPS[_p]["technique"] += "; thorough tier adds coverage-guided native go fuzzing of byte-level targets with the oracle inside the target"
+
+PROPS["C15"]["exhaustive_claim"] = True
+PROPS["C15"]["quick"]["env"] = {"VERIF_C15_DEPTH": 3}
+PROPS["C15"]["thorough"]["env"] = {"VERIF_C15_DEPTH": 4}
+PROPS["C15"]["technique"] = "exhaustive enumeration of all operation sequences up to depth 3 (quick) / 4 (thorough) over a tiny universe + stateful PBT (rapid) long random walks; full well-formedness scan of the executing shard after every step"
+PROPS["C15"]["rule"] += (" Enumerative part: every sequence of 3 (quick) / 4 (thorough) abstract operations from an alphabet of 41 over {2 shards; users A,B (shard 0), C (shard 1); "
+                         "one fungible and one semi-fungible token; amounts 1/all}, sharded between processes; an enumerated sequence is non-trivial when at least one of its calls changed "
+                         "state (distinct by construction). exhaustive=true refers to that enumerated sub-domain only.")
+PROPS["C15"]["level_text"] += " Every operation sequence up to depth 3/4 over a tiny universe is enumerated completely."
+
+PROPS["C09"]["exhaustive_claim"] = True
+PROPS["C09"]["technique"] = "enumerated product sweep (function x route x sender/destination kind x oracle answer x call type x argument count x token kinds) + " + PROPS["C09"]["technique"]
+PROPS["C09"]["rule"] += (" Enumerative part: the full product described under exhaustive_subdomains (1350 combinations, each a short scripted history through the engine: sender side, "
+                         "delivery, refund), sharded between processes; a combination's call is non-trivial by the same rule (distinct by construction). exhaustive=true refers to that sweep only.")
